@@ -90,6 +90,128 @@ theorem lex_charE (esc : Bool) (x : Nat) (hx : x ≠ 92) (hs : Scalar x) (f : Na
       have := step_hex x ((scalar_iff x).mpr hs) f rest st al co
       simpa using this
 
+/-! ### verbose mode -/
+
+/-- the final text of one code point: raw, backslash-escaped or `\u{…}`; in verbose mode `#`, blank and other white
+space are escaped as well -/
+def pcV (v esc : Bool) (x : Nat) : Str := RV v (E esc (core1 x))
+
+theorem pcV_false (esc : Bool) (x : Nat) : pcV false esc x = pcE esc x := rfl
+
+theorem pcV_ascii_tab : (List.range 128).all (fun x => RV true (core1 x) ==
+    (if x = 35 then [92, 35] else if x = 32 then [92, 32] else pc x)) = true := by decide +kernel
+
+theorem pcV_ascii (esc : Bool) (x : Nat) (h : x < 128) :
+    pcV true esc x = if x = 35 then [92, 35] else if x = 32 then [92, 32] else pc x := by
+  unfold pcV
+  rw [E_ascii]
+  · have := List.all_eq_true.mp pcV_ascii_tab x (List.mem_range.mpr h)
+    simpa using this
+  · have := List.all_eq_true.mp core1_ascii_closed x (List.mem_range.mpr h)
+    intro c hc
+    simpa using List.all_eq_true.mp this c hc
+
+theorem vsp_id (c : Nat) (h : Gen.verboseSpaces.contains c = false) : vsp c = [c] := by
+  simp only [vsp, h, Bool.false_eq_true, ite_false]
+
+theorem RV_id (t : Str) (h : ∀ c ∈ t, c ≠ 11 ∧ c ≠ 12 ∧ c ≠ 35 ∧ c ≠ 32 ∧ Gen.verboseSpaces.contains c = false) :
+    RV true t = t := by
+  induction t with
+  | nil => rfl
+  | cons c r ih =>
+    obtain ⟨h11, h12, h35, h32, hv⟩ := h c List.mem_cons_self
+    have hone : RV true [c] = [c] := by
+      simp [RV, R, replaceChar, h11, h12, h35, h32, vsp_id c hv]
+    have e : c :: r = [c] ++ r := rfl
+    rw [e, RV_append, hone, ih (fun x hx => h x (List.mem_cons_of_mem _ hx))]
+
+theorem hexDigit_plain : ∀ d, d < 16 → hexDigit d ≠ 11 ∧ hexDigit d ≠ 12 ∧ hexDigit d ≠ 35 ∧ hexDigit d ≠ 32 ∧
+    Gen.verboseSpaces.contains (hexDigit d) = false := by decide
+
+theorem hexText_plain (x : Nat) : ∀ c ∈ [92, 117, 123] ++ toHex x ++ [125],
+    c ≠ 11 ∧ c ≠ 12 ∧ c ≠ 35 ∧ c ≠ 32 ∧ Gen.verboseSpaces.contains c = false := by
+  intro c hc
+  simp only [List.mem_append, List.mem_cons, List.mem_nil_iff, or_false] at hc
+  rcases hc with ((rfl | rfl | rfl) | hc) | rfl
+  · decide
+  · decide
+  · decide
+  · rw [toHex_eq] at hc
+    obtain ⟨d, hd, rfl⟩ := List.mem_map.mp hc
+    exact hexDigit_plain d (hexDigs_lt 64 x d hd)
+  · decide
+
+theorem pcV_nonascii_esc (x : Nat) (h : 128 ≤ x) : pcV true true x = [92, 117, 123] ++ toHex x ++ [125] := by
+  have hx : ¬ x < 128 := by omega
+  unfold pcV
+  rw [core1_nonascii x h]
+  simp only [E, ite_true, List.flatMap_cons, List.flatMap_nil, List.append_nil, Expr.escapeChar, hx, ite_false,
+    Bool.false_and, Bool.false_eq_true]
+  exact RV_id _ (hexText_plain x)
+
+theorem pcV_nonascii_raw (x : Nat) (h : 128 ≤ x) :
+    pcV true false x = if Gen.verboseSpaces.contains x then [92, 117, 123] ++ toHex x ++ [125] else [x] := by
+  unfold pcV
+  rw [core1_nonascii x h]
+  have a1 : x ≠ 11 := by omega
+  have a2 : x ≠ 12 := by omega
+  have a3 : x ≠ 35 := by omega
+  have a4 : x ≠ 32 := by omega
+  simp only [E, Bool.false_eq_true, ite_false, RV, ite_true, R, replaceChar, List.flatMap_cons, List.flatMap_nil,
+    List.append_nil, a1, a2, a3]
+  unfold vsp
+  split
+  · have := hexText_plain x
+    have hid : ∀ t : Str, (∀ c ∈ t, c ≠ 32) → t.flatMap (fun c => if c = 32 then Gen.strBlank else [c]) = t := by
+      intro t ht
+      induction t with
+      | nil => rfl
+      | cons c r ih =>
+        have hc := ht c List.mem_cons_self
+        simp only [List.flatMap_cons, hc, ite_false]
+        rw [ih (fun y hy => ht y (List.mem_cons_of_mem _ hy))]
+        rfl
+    exact hid _ (fun c hc => (this c hc).2.2.2.1)
+  · simp [a4]
+
+theorem verboseSpaces_not_special : Gen.verboseSpaces.all (fun c => !specials.contains c && decide (128 ≤ c)) = true := by decide
+
+theorem step_esc_hash (f : Nat) (rest : List Nat) (st : List Frame) (al co : List Pat) :
+    parseLoop false (f + 1) (92 :: 35 :: rest) st al co = parseLoop false f rest st al (Pat.chr 35 :: co) := by
+  rw [parseLoop]; simp [parseEscape, isEscapeable, isMeta, isAlnum]
+
+theorem step_esc_blank (f : Nat) (rest : List Nat) (st : List Frame) (al co : List Pat) :
+    parseLoop false (f + 1) (92 :: 32 :: rest) st al co = parseLoop false f rest st al (Pat.chr 32 :: co) := by
+  rw [parseLoop]; simp [parseEscape, isEscapeable, isMeta, isAlnum]
+
+/-- **one printed code point is one `chr` item**, also with the verbose-mode escapes -/
+theorem lex_charV (v esc : Bool) (x : Nat) (hx : x ≠ 92) (hs : Scalar x) (f : Nat) (rest : List Nat) (st : List Frame) (al co : List Pat) :
+    parseLoop false (f + 1) (pcV v esc x ++ rest) st al co = parseLoop false f rest st al (Pat.chr x :: co) := by
+  cases v with
+  | false => exact lex_charE esc x hx hs f rest st al co
+  | true =>
+    by_cases h : x < 128
+    · rw [pcV_ascii esc x h]
+      by_cases h35 : x = 35
+      · subst h35; exact step_esc_hash f rest st al co
+      · by_cases h32 : x = 32
+        · subst h32; exact step_esc_blank f rest st al co
+        · simp only [h35, h32, ite_false]; exact lex_char x hx f rest st al co
+    · cases esc with
+      | true =>
+        rw [pcV_nonascii_esc x (by omega)]
+        have := step_hex x ((scalar_iff x).mpr hs) f rest st al co
+        simpa using this
+      | false =>
+        rw [pcV_nonascii_raw x (by omega)]
+        split
+        · have := step_hex x ((scalar_iff x).mpr hs) f rest st al co
+          simpa using this
+        · have hsp : x ∉ specials := by
+            simp only [specials, Gen.charsToEscape, List.mem_append, List.mem_cons, List.mem_nil_iff, or_false]
+            omega
+          exact step_raw x hsp f rest st al co
+
 theorem pc_92 : pc 92 = [92] := by decide +kernel
 
 theorem pcE_92 (esc : Bool) : pcE esc 92 = [92] := by rw [pcE_ascii esc 92 (by decide)]; exact pc_92
@@ -99,6 +221,20 @@ theorem pc_letter (k : ClassKind) (n : Bool) : pc (letterOf k n) = [letterOf k n
 
 theorem pcE_letter (esc : Bool) (k : ClassKind) (n : Bool) : pcE esc (letterOf k n) = [letterOf k n] := by
   rw [pcE_ascii esc _ (by cases k <;> cases n <;> decide)]; exact pc_letter k n
+
+theorem pcV_92 (v esc : Bool) : pcV v esc 92 = [92] := by
+  cases v
+  · exact pcE_92 esc
+  · rw [pcV_ascii esc 92 (by decide)]; simp; exact pc_92
+
+theorem pcV_letter (v esc : Bool) (k : ClassKind) (n : Bool) : pcV v esc (letterOf k n) = [letterOf k n] := by
+  cases v
+  · exact pcE_letter esc k n
+  · rw [pcV_ascii esc _ (by cases k <;> cases n <;> decide)]
+    have h1 : letterOf k n ≠ 35 := by cases k <;> cases n <;> decide
+    have h2 : letterOf k n ≠ 32 := by cases k <;> cases n <;> decide
+    simp only [h1, h2, ite_false]
+    exact pc_letter k n
 
 theorem core1_92 : core1 92 = [92] := by decide +kernel
 
@@ -113,9 +249,9 @@ theorem step_perl (k : ClassKind) (n : Bool) (f : Nat) (rest : List Nat) (st : L
   rw [parseLoop]
   simp [hpe]
 
-theorem lex_atoms (esc : Bool) (as : List Atom) (h : ∀ a ∈ as, AtomOK a) :
+theorem lex_atoms (v esc : Bool) (as : List Atom) (h : ∀ a ∈ as, AtomOK a) :
     ∀ (f : Nat) (rest : List Nat) (st : List Frame) (al co : List Pat),
-      parseLoop false (f + as.length) ((untok as).flatMap (pcE esc) ++ rest) st al co =
+      parseLoop false (f + as.length) ((untok as).flatMap (pcV v esc) ++ rest) st al co =
         parseLoop false f rest st al ((as.map atomPat).reverse ++ co) := by
   induction as with
   | nil => intro f rest st al co; simp [untok]
@@ -129,11 +265,11 @@ theorem lex_atoms (esc : Bool) (as : List Atom) (h : ∀ a ∈ as, AtomOK a) :
       have hsc : Scalar c := (h _ List.mem_cons_self).2
       rw [hlen]
       simp only [untok, List.flatMap_cons, List.append_assoc]
-      rw [lex_charE esc c hc hsc, ih hr]
+      rw [lex_charV v esc c hc hsc, ih hr]
       simp [atomPat]
     | cls k n =>
       rw [hlen]
-      simp only [untok, List.flatMap_cons, List.append_assoc, pcE_92, pcE_letter, List.singleton_append, List.cons_append, List.nil_append]
+      simp only [untok, List.flatMap_cons, List.append_assoc, pcV_92, pcV_letter, List.singleton_append, List.cons_append, List.nil_append]
       rw [step_perl, ih hr]
       simp [atomPat]
 
@@ -171,26 +307,26 @@ theorem flatMap_core1_ne (as : List Atom) (h : ∀ a ∈ as, AtomOK a) : (untok 
       intro hc
       simp at hc
 
-theorem R_escapeSymbols (esc : Bool) (as : List Atom) (h : AtomsOK as) :
-    R (E esc (escapeSymbols (untok as))) = if as = [Atom.chr 92] then [92, 92] else (untok as).flatMap (pcE esc) := by
+theorem R_escapeSymbols (v esc : Bool) (as : List Atom) (h : AtomsOK as) :
+    RV v (E esc (escapeSymbols (untok as))) = if as = [Atom.chr 92] then [92, 92] else (untok as).flatMap (pcV v esc) := by
   rw [escapeSymbols_eq]
   rcases h with rfl | h
   · have : (untok [Atom.chr 92]).flatMap core1 = [92] := by decide +kernel
     simp only [this, ite_true]
     rw [E_ascii esc _ (by decide)]
-    decide +kernel
+    cases v <;> decide +kernel
   · have hne : as ≠ [Atom.chr 92] := by
       intro hc; subst hc
       have := (h _ List.mem_cons_self).1
       exact this rfl
-    simp only [flatMap_core1_ne as h, hne, ite_false, E_flatMap, R_flatMap]
+    simp only [flatMap_core1_ne as h, hne, ite_false, E_flatMap, RV_flatMap]
     rfl
 
 /-- **one grapheme** -/
-theorem lex_grapheme (esc : Bool) (as : List Atom) (h : AtomsOK as) (f : Nat) (rest : List Nat) (st : List Frame) (al co : List Pat) :
-    parseLoop false (f + as.length) (R (E esc (escapeSymbols (untok as))) ++ rest) st al co =
+theorem lex_grapheme (v esc : Bool) (as : List Atom) (h : AtomsOK as) (f : Nat) (rest : List Nat) (st : List Frame) (al co : List Pat) :
+    parseLoop false (f + as.length) (RV v (E esc (escapeSymbols (untok as))) ++ rest) st al co =
       parseLoop false f rest st al ((as.map atomPat).reverse ++ co) := by
-  rw [R_escapeSymbols esc as h]
+  rw [R_escapeSymbols v esc as h]
   split
   · rename_i hs
     subst hs
@@ -198,7 +334,7 @@ theorem lex_grapheme (esc : Bool) (as : List Atom) (h : AtomsOK as) (f : Nat) (r
   · rename_i hs
     rcases h with h | h
     · exact absurd h hs
-    · exact lex_atoms esc as h f rest st al co
+    · exact lex_atoms v esc as h f rest st al co
 
 theorem fmtGrapheme_plain (cap esc : Bool) (s : Str) :
     fmtGrapheme (cfgPlain cap esc) (escapeGrapheme (cfgPlain cap esc) (Grapheme.ofStr s)) = E esc (escapeSymbols s) := by
@@ -220,13 +356,13 @@ theorem atomsOf_cons (as : List Atom) (h : AtomsOK as) (gs : Cluster) :
   simp [atomsOf, value_ofStr, tokens_untok as h]
 
 /-- **one literal** -/
-theorem lex_literal (cap esc : Bool) (c : Cluster) (h : PlainBs c) :
+theorem lex_literal (v cap esc : Bool) (c : Cluster) (h : PlainBs c) :
     ∀ (f : Nat) (rest : List Nat) (st : List Frame) (al co : List Pat),
-      parseLoop false (f + (atomsOf c).length) (R (fmtLiteral (cfgPlain cap esc) c) ++ rest) st al co =
+      parseLoop false (f + (atomsOf c).length) (RV v (fmtLiteral (cfgPlain cap esc) c) ++ rest) st al co =
         parseLoop false f rest st al (((atomsOf c).map atomPat).reverse ++ co) := by
   rw [fmtLiteral_plain cap esc c h]
   induction c with
-  | nil => intro f rest st al co; simp [atomsOf, R_nil]
+  | nil => intro f rest st al co; simp [atomsOf, RV_nil]
   | cons g gs ih =>
     intro f rest st al co
     obtain ⟨as, _, hok, rfl⟩ := h g List.mem_cons_self
@@ -234,7 +370,7 @@ theorem lex_literal (cap esc : Bool) (c : Cluster) (h : PlainBs c) :
     rw [atomsOf_cons as hok gs]
     have hlen : f + (as ++ atomsOf gs).length = (f + (atomsOf gs).length) + as.length := by
       simp; omega
-    rw [hlen, List.flatMap_cons, R_append, List.append_assoc, value_ofStr, lex_grapheme esc as hok, ih hgs]
+    rw [hlen, List.flatMap_cons, RV_append, List.append_assoc, value_ofStr, lex_grapheme v esc as hok, ih hgs]
     simp
 
 end Grexv
